@@ -87,17 +87,21 @@ func runC05(c *ctxT) {
 		go func(i int) {
 			defer wg.Done()
 			defer func() { <-sem }()
-			c05History(c, c.Batch*100000+i, base+int64(i)*104729, perHist)
+			c05History(c, c.Batch*100000+i, base+int64(i)*104729, perHist, false)
 		}(i)
 	}
 	wg.Wait()
+	// directed: a DEL parked on its way to the record store while other pods' ADDs are served
+	for i := 0; i < map[bool]int{false: 3, true: 8}[c.Thorough]; i++ {
+		c05History(c, c.Batch*100000+50000+i, base+int64(i)*15485863+11, perHist, true)
+	}
 	c05Filter(c, dRand(base^0xf117), map[bool]int{false: 20000, true: 400000}[c.Thorough])
 	for k := 0; k < nKill; k++ {
 		c05Kill(c, base+int64(k)*7)
 	}
 }
 
-func c05History(c *ctxT, hid int, seed int64, perHist int) {
+func c05History(c *ctxT, hid int, seed int64, perHist int, directed bool) {
 	r := c.R
 	rng := dRand(seed)
 	cfg := genPoolCfg(rng, false)
@@ -115,7 +119,14 @@ func c05History(c *ctxT, hid int, seed int64, perHist int) {
 	if rng.Intn(3) == 0 {
 		cfg.Faults = genFaults(rng, 1+rng.Intn(3), 20)
 	}
-	fmt.Printf("CASE C05 history %d seed %d cfg %+v\n", hid, seed, cfg)
+	if directed {
+		cfg.Slots, cfg.Pre, cfg.PreV6, cfg.Faults = 1, nil, nil, nil
+		cfg.Cap = 3 + rng.Intn(3)
+		cfg.MinIdle, cfg.MaxIdle = 0, rng.Intn(2)
+		cfg.Pods = cfg.Cap + 4
+		cfg.CancelPct = 0
+	}
+	fmt.Printf("CASE C05 history %d seed %d directed %v cfg %+v\n", hid, seed, directed, cfg)
 	d, err := newDHist(c, "C05", hid, cfg, seed, types.IPAMTypeDefault)
 	if err != nil {
 		r.Inconclusive(fmt.Sprintf("history %d: %v", hid, err))
@@ -169,7 +180,13 @@ func c05History(c *ctxT, hid int, seed int64, perHist int) {
 			d.db.mu.Unlock()
 		}
 	}
+	if directed {
+		c05ParkedDel(d, rng, acks, &amu, take)
+	}
 	var cw sync.WaitGroup
+	if directed {
+		cfg.Clients = 0
+	}
 	pods := make([]*c04Pod, cfg.Pods)
 	for i := range pods {
 		pods[i] = &c04Pod{}
@@ -258,9 +275,9 @@ func c05History(c *ctxT, hid int, seed int64, perHist int) {
 		}()
 	}
 	cw.Wait()
+	d.stop()
 	d.db.observe = nil
 	d.cloud.PostMutate = nil
-	d.stop()
 	r.Count("crash_points_enumerated", int64(nimg))
 	r.Eval(1)
 	// restart every kept image
@@ -276,6 +293,115 @@ func c05History(c *ctxT, hid int, seed int64, perHist int) {
 		}
 	}
 	_ = os.RemoveAll(d.dir)
+}
+
+// c05ParkedDel: the DEL of one pod is parked where it calls the record store while ADDs of other pods are served to
+// completion; every boundary of those ADDs is a crash point at which the DEL is half done. With the pool released
+// before the record is removed, an ADD served in that window can be handed the address the stale record still names.
+func c05ParkedDel(d *dHist, rng *rand.Rand, acks map[string]c05Ack, amu *sync.Mutex, take func(string, *cloudsim.Cloud)) {
+	r := d.c.R
+	cfg := d.cfg
+	bg := func() (context.Context, context.CancelFunc) { return context.WithTimeout(d.ctx, 20*time.Second) }
+	nHeld := 2 + rng.Intn(cfg.Cap-1)
+	add := func(pi int) bool {
+		pod := fmt.Sprintf("ns/p%d", pi)
+		amu.Lock()
+		x := acks[pod]
+		x.Limbo = true
+		acks[pod] = x
+		amu.Unlock()
+		ctx, cancel := bg()
+		res := d.rpcAdd(ctx, pi, "c0")
+		cancel()
+		amu.Lock()
+		x = acks[pod]
+		x.Limbo = false
+		if res.Err == nil {
+			x.Held, x.V4, x.V6, x.Container = true, res.V4, res.V6, "c0"
+		}
+		acks[pod] = x
+		amu.Unlock()
+		if res.Err == nil {
+			d.db.mu.Lock()
+			take("after-reply-add", d.cloud.Clone(d.mon.now))
+			d.db.mu.Unlock()
+		}
+		return res.Err == nil
+	}
+	for pi := 0; pi < nHeld; pi++ {
+		if !add(pi) {
+			nHeld = pi
+			break
+		}
+	}
+	if nHeld == 0 {
+		return
+	}
+	victim := rng.Intn(nHeld)
+	vpod := fmt.Sprintf("ns/p%d", victim)
+	parked, resume := make(chan struct{}), make(chan struct{})
+	var once sync.Once
+	d.db.gate = func(kind, key string) {
+		if kind == "delete" && strings.HasSuffix(key, fmt.Sprintf("p%d", victim)) {
+			hit := false
+			once.Do(func() { hit = true })
+			if hit {
+				close(parked)
+				<-resume
+			}
+		}
+	}
+	amu.Lock()
+	x := acks[vpod]
+	vaddr := x.V4
+	x.Held, x.Limbo = false, true
+	acks[vpod] = x
+	amu.Unlock()
+	delDone := make(chan error, 1)
+	go func() {
+		ctx, cancel := bg()
+		defer cancel()
+		delDone <- d.rpcDel(ctx, victim, "c0").Err
+	}()
+	select {
+	case <-parked:
+		r.Count("directed:del-parked-at-record-delete", 1)
+	case err := <-delDone:
+		// the DEL never reached the store
+		d.db.gate = nil
+		r.Count("directed:del-finished-unparked", 1)
+		_ = err
+		return
+	}
+	reused := false
+	for pi := nHeld; pi < cfg.Pods && !reused; pi++ {
+		if !add(pi) {
+			break
+		}
+		amu.Lock()
+		reused = acks[fmt.Sprintf("ns/p%d", pi)].V4 == vaddr && vaddr.IsValid()
+		amu.Unlock()
+	}
+	if reused {
+		r.Count("directed:address-reused-while-del-parked", 1)
+	} else {
+		r.Count("directed:address-kept-while-del-parked", 1)
+	}
+	close(resume)
+	err := <-delDone
+	d.db.gate = nil
+	amu.Lock()
+	x = acks[vpod]
+	if err == nil {
+		x.Limbo, x.Deleted = false, true
+	}
+	acks[vpod] = x
+	amu.Unlock()
+	if err == nil {
+		d.db.mu.Lock()
+		take("after-reply-del", d.cloud.Clone(d.mon.now))
+		d.db.mu.Unlock()
+	}
 }
 
 func c05Restart(c *ctxT, d *dHist, hid int, seed int64, idx int, img *c05Image) {
@@ -316,10 +442,7 @@ func c05Restart(c *ctxT, d *dHist, hid int, seed int64, idx int, img *c05Image) 
 	mgr := eni.NewManager(cfg.MinIdle, cfg.MaxIdle, cfg.Slots*cfg.Cap, 0, nis, tdaemon.EniSelectionPolicy(cfg.Policy), nil)
 	ctx, cancel := context.WithCancel(context.Background())
 	var wg sync.WaitGroup
-	defer func() {
-		cancel()
-		wg.Wait()
-	}()
+	defer stopWorkers(cancel, &wg, r)
 	if err := mgr.Run(ctx, &wg, podResources); err != nil {
 		r.Violate("C05.restart-failed", img.Point, fmt.Sprintf("history %d image %d: the pool does not start from the stored records: %v", hid, idx, err), rep(""))
 		return
